@@ -1067,6 +1067,18 @@ static carquet_status_t load_next_page_mmap(
     int32_t num_values = page_header.data_page_header.num_values;
     size_t value_size = get_value_size(reader->type, reader->type_length);
 
+    /* A data page without values holds nothing to decode. It is only stepped
+     * over: carquet_read_next_page goes on to the page behind it, the decoded
+     * buffers keep what they hold. */
+    if (num_values == 0) {
+        reader->page_loaded = true;
+        reader->page_num_values = 0;
+        reader->page_values_read = 0;
+        reader->page_header_size = (int32_t)header_size;
+        reader->page_compressed_size = page_header.compressed_page_size;
+        return CARQUET_OK;
+    }
+
     /* Check if zero-copy is possible */
     bool zero_copy_eligible = carquet_page_is_zero_copy_eligible(
         col_meta->codec,
@@ -1328,6 +1340,19 @@ static carquet_status_t load_next_page_fread(
         }
     }
 
+    /* A data page without values holds nothing to decode. It is only stepped
+     * over: carquet_read_next_page goes on to the page behind it, the decoded
+     * buffers keep what they hold. */
+    if (page_header.data_page_header.num_values == 0) {
+        free(compressed);
+        reader->page_loaded = true;
+        reader->page_num_values = 0;
+        reader->page_values_read = 0;
+        reader->page_header_size = (int32_t)header_size;
+        reader->page_compressed_size = page_header.compressed_page_size;
+        return CARQUET_OK;
+    }
+
     /* Decompress if needed */
     uint8_t* page_data;
     size_t page_size;
@@ -1492,8 +1517,9 @@ carquet_status_t carquet_read_next_page(
         return CARQUET_ERROR_INVALID_ARGUMENT;
     }
 
-    /* Load a new page if needed */
-    if (!reader->page_loaded || reader->page_values_read >= reader->page_num_values) {
+    /* Load a new page if needed. A page without values is used up as soon as it
+     * is loaded, so the loop steps over it to the page behind it. */
+    while (!reader->page_loaded || reader->page_values_read >= reader->page_num_values) {
         /* If we had a previous page, advance past it */
         if (reader->page_loaded) {
             reader->current_page += reader->page_header_size + reader->page_compressed_size;
